@@ -29,3 +29,21 @@ Theorem C02_source : forall ts_parse : str -> option cfile,
   forall src f, ts_parse src = Some f -> wf_file f -> canonical_file f = true -> roundtrip f = src.
 Proof. exact (fun ts Htiling _ => P20.C02_source ts Htiling). Qed.
 Print Assumptions C02_source.
+
+From Coq Require Import ZArith.
+From F0 Require Import GapLib.
+From Dyn Require Import GapGen GapGenProps.
+
+(* over the REGENERATED gap helpers of expressions/trivia.py: the helpers the reader uses are the model's, for every gap — the generated
+   blank-line test, indentation and gap trivia are has_empty_line, indent_from_gap and gap_trivia of F0.F0s, with which the theorems
+   above are stated *)
+Theorem C02_gap_helpers_are_the_models : forall g t,
+  gap_has_empty_line g = has_empty_line g /\ indent_from_gap_gen g = indent_from_gap g /\ append_gap_trivia t g true = t ++ gap_trivia g.
+Proof. intros g t. repeat split; [apply gap_has_empty_line_eq | apply indent_from_gap_eq | apply append_gap_trivia_eq]. Qed.
+Print Assumptions C02_gap_helpers_are_the_models.
+
+Theorem C02_line_info_offsets : forall pre g post,
+  gap_line_info_offsets (pre ++ g ++ post) (Z.of_nat (List.length pre)) (Z.of_nat (List.length pre + List.length g)) =
+  if has_nl g then (Z.of_nat (py_count LF g), Some (Z.of_nat (indent_from_gap g))) else (0%Z, None).
+Proof. exact line_info_offsets. Qed.
+Print Assumptions C02_line_info_offsets.
